@@ -279,7 +279,7 @@ theorem PW.trans {α : Type} {R : α → α → Prop} (ht : ∀ a b c, R a b →
     | cons hr' h2' => exact .cons (ht _ _ _ hr hr') (ih h2')
 
 theorem pwCore_trans {as bs cs : Links} (h1 : PW CoreEvolves as bs) (h2 : PW CoreEvolves bs cs) :
-    PW CoreEvolves as cs := PW.trans (fun _ _ _ h h' => CoreEvolves.trans h h') h1 h2
+    PW CoreEvolves as cs := PW.trans (R := CoreEvolves) (fun _ _ _ h h' => CoreEvolves.trans h h') h1 h2
 
 theorem pw_evSrtlaAck (cs : Links) (idx : Nat) (seq : Int) (cl : Bool) (now : Nat) :
     PW CoreEvolves cs (evSrtlaAck cs idx seq cl now) := by
@@ -324,5 +324,336 @@ theorem pw_foldl {α β : Type} {R : α → α → Prop} (hrefl : ∀ a, R a a) 
   induction bs generalizing as with
   | nil => exact PW.refl hrefl as
   | cons b bs ih => exact PW.trans ht (hf as b) (ih (f as b))
+
+/-! ### link operations -/
+
+theorem ev_absorb (hc : Bool) (l : FLink F) (x : SLink F) : Evolves hc l (l.absorb x) :=
+  Evolves.of_soft rfl rfl rfl rfl rfl
+
+theorem ev_stallProbeDue (hc : Bool) (l : FLink F) : Evolves hc l l.stallProbeDue.1 := by
+  unfold FLink.stallProbeDue
+  dsimp only
+  split <;> exact Evolves.of_soft rfl rfl rfl rfl rfl
+
+/-- Queueing a datagram: fine unless it is put on a clean `Registering` link after registration
+completed (which the callers exclude: the selectors only return schedulable links, probes need a
+connected link). -/
+theorem ev_queue (hc : Bool) (l : FLink F) (data : Link.Bytes) (seq : Option Nat) (t : Nat)
+    (hside : hc = true → l.core.phase ≠ .registering ∨ l.core.connected = true) :
+    Evolves hc l (l.queueDataPacket data seq t).1 := by
+  refine ⟨rfl, rfl, rfl, rfl, rfl, Iff.rfl, fun h hp hcl => ?_⟩
+  rcases hside h with h1 | h1
+  · exact absurd hp h1
+  · rw [hcl.connected] at h1; cases h1
+
+def regFold (c : Conn) (it : QItem) : Conn :=
+  match it.2.1 with
+  | some s => c.register (toI32 s) it.2.2
+  | none => c
+
+theorem regFold_frame (c : Conn) (it : QItem) :
+    (regFold c it).connected = c.connected ∧ (regFold c it).connId = c.connId ∧
+    (regFold c it).phase = c.phase ∧ (regFold c it).window = c.window ∧
+    (regFold c it).cong = c.cong ∧ (regFold c it).lastReceived = c.lastReceived := by
+  unfold regFold
+  split <;> exact ⟨rfl, rfl, rfl, rfl, rfl, rfl⟩
+
+theorem foldl_register_frame (q : List QItem) (c : Conn) :
+    (q.foldl regFold c).connected = c.connected ∧ (q.foldl regFold c).connId = c.connId ∧
+    (q.foldl regFold c).phase = c.phase ∧ (q.foldl regFold c).window = c.window ∧
+    (q.foldl regFold c).cong = c.cong ∧ (q.foldl regFold c).lastReceived = c.lastReceived := by
+  induction q generalizing c with
+  | nil => exact ⟨rfl, rfl, rfl, rfl, rfl, rfl⟩
+  | cons it q ih =>
+    simp only [List.foldl_cons]
+    obtain ⟨a1, a2, a3, a4, a5, a6⟩ := ih (regFold c it)
+    obtain ⟨b1, b2, b3, b4, b5, b6⟩ := regFold_frame c it
+    exact ⟨a1.trans b1, a2.trans b2, a3.trans b3, a4.trans b4, a5.trans b5, a6.trans b6⟩
+
+theorem takeBatch_eq (l : FLink F) (now : Nat) :
+    l.takeBatch now =
+      if l.queue.isEmpty then ({ l with lastFlushMs := now }, [])
+      else ({ l with lastFlushMs := now, core := { l.queue.foldl regFold l.core with lastSent := some now },
+                     queue := [] }, l.queue) := rfl
+
+theorem ev_takeBatch (hc : Bool) (l : FLink F) (now : Nat) : Evolves hc l (l.takeBatch now).1 := by
+  rw [takeBatch_eq]
+  split
+  · exact Evolves.of_soft rfl rfl rfl rfl rfl
+  · rename_i hq
+    obtain ⟨h1, h2, h3, -, -, -⟩ := foldl_register_frame l.queue l.core
+    refine ⟨rfl, rfl, rfl, h1, h2, by simp only []; rw [h3], fun _ _ hcl => ?_⟩
+    rw [hcl.queue] at hq; simp at hq
+
+theorem takeBatch_window (l : FLink F) (now : Nat) :
+    (l.takeBatch now).1.core.window = l.core.window ∧ (l.takeBatch now).1.core.cong = l.core.cong ∧
+    (l.takeBatch now).1.connTimeoutMs = l.connTimeoutMs := by
+  rw [takeBatch_eq]
+  split
+  · exact ⟨rfl, rfl, rfl⟩
+  · obtain ⟨-, -, -, h4, h5, -⟩ := foldl_register_frame l.queue l.core
+    exact ⟨h4, h5, rfl⟩
+
+theorem ev_srtAck (hc : Bool) (l : FLink F) (ack : Int) (now : Nat) : Evolves hc l (l.srtAck ack now) := by
+  unfold FLink.srtAck
+  have h := core_srtAck l.core ack now
+  generalize l.core.srtAck ack now = r at h
+  obtain ⟨c, sample⟩ := r
+  dsimp only at h ⊢
+  cases sample with
+  | none => exact Evolves.of_core h
+  | some rtt =>
+    exact (Evolves.of_core (hc := hc) h).trans (Evolves.of_soft rfl rfl rfl rfl rfl)
+
+theorem ev_keepalivePacket (hc : Bool) (l : FLink F) (now : Nat) : Evolves hc l (l.keepalivePacket now).1 := by
+  unfold FLink.keepalivePacket
+  dsimp only
+  exact ⟨rfl, rfl, rfl, rfl, rfl, Iff.rfl, fun _ _ h => ⟨h.window, h.log, h.queue, h.inFlight, h.connected⟩⟩
+
+theorem recover_disconnected (c : Cong) (w : Int) (v : Bool) (now : Nat) : c.recover w false v now = (c, w) := by
+  unfold Cong.recover; simp
+
+theorem ev_performWindowRecovery (hc : Bool) (l : FLink F) (now : Nat) :
+    Evolves hc l (l.performWindowRecovery now) := by
+  unfold FLink.performWindowRecovery
+  dsimp only
+  refine ⟨rfl, rfl, rfl, rfl, rfl, Iff.rfl, fun _ _ h => ?_⟩
+  have hcn := h.connected
+  refine ⟨?_, h.log, h.queue, h.inFlight, h.connected⟩
+  simp only [hcn, recover_disconnected]
+  exact h.window
+
+theorem ev_updatePhase (hc : Bool) (l : FLink F) (now : Nat) : Evolves hc l (l.updatePhase now) := by
+  unfold FLink.updatePhase
+  dsimp only
+  split
+  · rename_i p e hp
+    split
+    · exact ⟨rfl, rfl, rfl, rfl, rfl, by simp [hp], fun _ h => by rw [hp] at h; cases h⟩
+    · exact Evolves.refl hc l
+  · rename_i hp
+    split
+    · exact ⟨rfl, rfl, rfl, rfl, rfl, by simp [hp], fun _ h => by rw [hp] at h; cases h⟩
+    · exact Evolves.refl hc l
+  · rename_i hp
+    split
+    · exact ⟨rfl, rfl, rfl, rfl, rfl, by simp [hp], fun _ h => by rw [hp] at h; cases h⟩
+    · exact Evolves.refl hc l
+  · exact Evolves.refl hc l
+
+theorem ev_recomputeBatchRegime (hc : Bool) (l : FLink F) : Evolves hc l l.recomputeBatchRegime :=
+  Evolves.of_soft rfl rfl rfl rfl rfl
+
+theorem ev_handleKeepaliveResponse (hc : Bool) (l : FLink F) (data : Link.Bytes) (now : Nat) :
+    Evolves hc l (l.handleKeepaliveResponse data now).1 := by
+  unfold FLink.handleKeepaliveResponse
+  split
+  · exact Evolves.refl hc l
+  · split
+    · dsimp only
+      split <;> exact Evolves.of_soft rfl rfl rfl rfl rfl
+    · exact Evolves.of_soft rfl rfl rfl rfl rfl
+
+theorem ev_recordRttProbe (hc : Bool) (l : FLink F) : Evolves hc l l.recordRttProbe := by
+  unfold FLink.recordRttProbe
+  split
+  · rename_i p e hp
+    split
+    · exact ⟨rfl, rfl, rfl, rfl, rfl, by simp [hp], fun _ h => by rw [hp] at h; cases h⟩
+    · exact ⟨rfl, rfl, rfl, rfl, rfl, by simp [hp], fun _ h => by rw [hp] at h; cases h⟩
+  · exact Evolves.refl hc l
+
+/-- Stamps on fields outside the accounting: `last_received`, `last_sent`, the delivery proof. -/
+theorem ev_stamps (hc : Bool) (l : FLink F) (lr ls : Option Nat) (pm : Nat) :
+    Evolves hc l { l with core := { l.core with lastReceived := lr, lastSent := ls, proofMs := pm } } :=
+  ⟨rfl, rfl, rfl, rfl, rfl, Iff.rfl, fun _ _ h => ⟨h.window, h.log, h.queue, h.inFlight, h.connected⟩⟩
+
+/-! ### tear-down and reconnect -/
+
+/-- `l'` is a torn-down version of `l`: reconnection bookkeeping kept, accounting clean. -/
+structure Torn (l l' : FLink F) : Prop where
+  established : l'.established = l.established
+  lastAttempt : l'.lastAttemptMs = l.lastAttemptMs
+  failCount : l'.failCount = l.failCount
+  connId : l'.core.connId = l.core.connId
+  phase : l'.core.phase = .registering
+  clean : Clean l'
+
+theorem clean_markForRecovery (l : FLink F) : Clean l.markForRecovery := by
+  have hI := wconsts.2.2.1
+  exact ⟨hI, rfl, rfl, rfl, rfl⟩
+
+theorem torn_markForRecovery (l : FLink F) : Torn l l.markForRecovery :=
+  ⟨rfl, rfl, rfl, rfl, rfl, clean_markForRecovery l⟩
+
+theorem Torn.of_evolves {hc : Bool} {a b c : FLink F} (h1 : Evolves hc a b) (h2 : Torn b c) : Torn a c :=
+  ⟨h2.established.trans h1.established, h2.lastAttempt.trans h1.lastAttempt,
+   h2.failCount.trans h1.failCount, h2.connId.trans h1.connId, h2.phase, h2.clean⟩
+
+theorem Torn.then_evolves {a b c : FLink F} (h1 : Torn a b) (h2 : Evolves true b c) : Torn a c :=
+  ⟨h2.established.trans h1.established, h2.lastAttempt.trans h1.lastAttempt,
+   h2.failCount.trans h1.failCount, h2.connId.trans h1.connId, h2.phaseReg.mpr h1.phase,
+   h2.clean rfl h1.phase h1.clean⟩
+
+theorem Torn.then_torn {a b c : FLink F} (h1 : Torn a b) (h2 : Torn b c) : Torn a c :=
+  ⟨h2.established.trans h1.established, h2.lastAttempt.trans h1.lastAttempt,
+   h2.failCount.trans h1.failCount, h2.connId.trans h1.connId, h2.phase, h2.clean⟩
+
+/-- The link part of the reconnect branch of housekeeping (`record_attempt`, `reconnect_uplink` =
+`reset_for_reconnect` + `mark_success` + `reset_startup_grace`), without the `last_sent` stamp. -/
+def reconnectLink (l : FLink F) (now : Nat) : FLink F :=
+  { ((l.recordAttempt now).resetForReconnect now) with
+      failCount := 0, graceDeadline := now + Conn.STARTUP_GRACE_MS }
+
+def withSent (l : FLink F) (t : Option Nat) : FLink F := { l with core := { l.core with lastSent := t } }
+
+theorem ev_withSent (hc : Bool) (l : FLink F) (t : Option Nat) : Evolves hc l (withSent l t) :=
+  ⟨rfl, rfl, rfl, rfl, rfl, Iff.rfl, fun _ _ h => ⟨h.window, h.log, h.queue, h.inFlight, h.connected⟩⟩
+
+theorem recordAttempt_fields (l : FLink F) (now : Nat) :
+    (l.recordAttempt now).lastAttemptMs = now ∧ (l.recordAttempt now).established = l.established ∧
+    (l.recordAttempt now).core = l.core ∧ (l.recordAttempt now).connTimeoutMs = l.connTimeoutMs := by
+  unfold FLink.recordAttempt
+  split <;> exact ⟨rfl, rfl, rfl, rfl⟩
+
+theorem reconnectLink_fields (l : FLink F) (now : Nat) :
+    (reconnectLink l now).lastAttemptMs = now ∧ (reconnectLink l now).failCount = 0 ∧
+    (reconnectLink l now).established = l.established ∧
+    (reconnectLink l now).graceDeadline = now + 5000 ∧
+    (reconnectLink l now).core.connId = l.core.connId ∧
+    (reconnectLink l now).core.phase = .registering ∧
+    (reconnectLink l now).core.lastReceived = none ∧
+    (reconnectLink l now).core.cong = {} ∧
+    (reconnectLink l now).connTimeoutMs = l.connTimeoutMs ∧
+    Clean (reconnectLink l now) := by
+  have hI := wconsts.2.2.1
+  have hG := Conn.STARTUP_GRACE_MS_eq
+  obtain ⟨h1, h2, h3, h4⟩ := recordAttempt_fields l now
+  unfold reconnectLink FLink.resetForReconnect FLink.resetCoreState
+  dsimp only
+  refine ⟨rfl, rfl, h2, by rw [hG], ?_, rfl, rfl, rfl, h4, ⟨hI, rfl, rfl, rfl, rfl⟩⟩
+  show (l.recordAttempt now).core.connId = _
+  rw [h3]
+
+theorem reconnectLink_grace (l : FLink F) (g now : Nat) :
+    reconnectLink { l with graceDeadline := g } now = reconnectLink l now := by
+  unfold reconnectLink FLink.recordAttempt
+  dsimp only
+  split <;> rfl
+
+/-! ## 4. The per-link loop of housekeeping as a map -/
+
+/-- Link part of the not-timed-out branch (keepalives, window recovery unless classic, bitrate,
+phase, batch regime). -/
+def aliveLink (classic : Bool) (now : Nat) (l : FLink F) : FLink F :=
+  let l1 := if l.needsKeepalive now then (l.keepalivePacket now).1 else l
+  let l2 := if l1.needsRttMeasurement now then (l1.keepalivePacket now).1 else l1
+  let l3 := if !classic then l2.performWindowRecovery now else l2
+  let l4 := { l3 with bitrate := l3.bitrate.calculate now }
+  (l4.updatePhase now).recomputeBatchRegime
+
+/-- Wire output of the not-timed-out branch. -/
+def aliveWire (now : Nat) (l : FLink F) : List (Nat × Sys.Bytes) :=
+  let l1 := if l.needsKeepalive now then (l.keepalivePacket now).1 else l
+  (if l.needsKeepalive now then [(l.core.connId, (l.keepalivePacket now).2)] else []) ++
+  (if l1.needsRttMeasurement now then [(l.core.connId, (l1.keepalivePacket now).2)] else [])
+
+/-- What one housekeeping pass does to the link at index `i`, given the pending-REG2 index. -/
+def hkLink (classic : Bool) (now : Nat) (pending : Option Nat) (i : Nat) (l : FLink F) : FLink F :=
+  if l.isTimedOut now then
+    if l.shouldAttemptReconnect now then
+      match pending with
+      | some p => if p = i then withSent (reconnectLink l now) (some now) else reconnectLink l now
+      | none => withSent (reconnectLink l now) (some now)
+    else l
+  else aliveLink classic now l
+
+/-- What it puts on the wire for that link. -/
+def hkWire (now : Nat) (reg : Reg.Reg) (i : Nat) (l : FLink F) : List (Nat × Sys.Bytes) :=
+  if l.isTimedOut now then
+    if l.shouldAttemptReconnect now then
+      match reg.pending with
+      | some p => if p = i then [(l.core.connId, (Reg.buildReg1For reg i now).2)] else []
+      | none => [(l.core.connId, Reg.buildReg2 reg)]
+    else []
+  else aliveWire now l
+
+/-- The registration state after the link at index `i` was handled. -/
+def hkReg (now : Nat) (reg : Reg.Reg) (i : Nat) (l : FLink F) : Reg.Reg :=
+  if l.isTimedOut now && l.shouldAttemptReconnect now && (reg.pending == some i) then
+    (Reg.buildReg1For reg i now).1
+  else reg
+
+theorem hkLinksGo_cons (classic : Bool) (now : Nat) (l : FLink F) (rest : List (FLink F)) (i : Nat)
+    (reg : Reg.Reg) :
+    hkLinksGo classic now (l :: rest) i reg =
+      (hkLink classic now reg.pending i l :: (hkLinksGo classic now rest (i + 1) (hkReg now reg i l)).1,
+       (hkLinksGo classic now rest (i + 1) (hkReg now reg i l)).2.1,
+       hkWire now reg i l ++ (hkLinksGo classic now rest (i + 1) (hkReg now reg i l)).2.2) := by
+  rw [hkLinksGo]
+  unfold hkLink hkWire hkReg
+  cases hto : l.isTimedOut now
+  · simp only [Bool.false_eq_true, if_false, Bool.false_and]
+    unfold aliveLink aliveWire
+    cases hk1 : l.needsKeepalive now
+    · simp only [Bool.false_eq_true, if_false]
+      cases hk2 : l.needsRttMeasurement now
+      · simp only [Bool.false_eq_true, if_false]; rfl
+      · simp only [if_true]; rfl
+    · simp only [if_true]
+      cases hk2 : (l.keepalivePacket now).1.needsRttMeasurement now
+      · simp only [Bool.false_eq_true, if_false]; rfl
+      · simp only [if_true]; rfl
+  · cases hsa : l.shouldAttemptReconnect now
+    · simp only [if_true, Bool.false_eq_true, if_false, Bool.true_and, Bool.false_and, List.nil_append]
+    · simp only [if_true, Bool.true_and]
+      cases hp : reg.pending with
+      | none =>
+        simp only [beq_iff_eq, reduceCtorEq, if_false]
+        rfl
+      | some p =>
+        simp only [beq_iff_eq, Option.some.injEq]
+        by_cases hpi : p = i
+        · simp only [hpi, if_true]
+          rfl
+        · simp only [hpi, if_false, List.nil_append]
+          rfl
+
+theorem hkReg_fields (now : Nat) (reg : Reg.Reg) (i : Nat) (l : FLink F) :
+    (hkReg now reg i l).pending = reg.pending ∧ (hkReg now reg i l).hasConnected = reg.hasConnected ∧
+    (hkReg now reg i l).id = reg.id ∧ (hkReg now reg i l).active = reg.active ∧
+    (hkReg now reg i l).probing = reg.probing := by
+  unfold hkReg
+  split
+  · rename_i h
+    simp only [Bool.and_eq_true, beq_iff_eq] at h
+    exact ⟨by rw [h.2]; rfl, rfl, rfl, rfl, rfl⟩
+  · exact ⟨rfl, rfl, rfl, rfl, rfl⟩
+
+/-- **The loop is a map**: the record of link `j` after the pass is a function of that link's own
+record, its index and the (loop-invariant) pending-REG2 index only. -/
+theorem hkLinksGo_links (classic : Bool) (now : Nat) (ls : List (FLink F)) (i : Nat) (reg : Reg.Reg) :
+    (hkLinksGo classic now ls i reg).1 = ls.mapIdx (fun j l => hkLink classic now reg.pending (i + j) l) ∧
+    (hkLinksGo classic now ls i reg).2.1.pending = reg.pending ∧
+    (hkLinksGo classic now ls i reg).2.1.hasConnected = reg.hasConnected ∧
+    (hkLinksGo classic now ls i reg).2.1.id = reg.id ∧
+    (hkLinksGo classic now ls i reg).2.1.active = reg.active ∧
+    (hkLinksGo classic now ls i reg).2.1.probing = reg.probing := by
+  induction ls generalizing i reg with
+  | nil => exact ⟨rfl, rfl, rfl, rfl, rfl, rfl⟩
+  | cons l rest ih =>
+    rw [hkLinksGo_cons]
+    obtain ⟨h1, h2, h3, h4, h5, h6⟩ := ih (i + 1) (hkReg now reg i l)
+    obtain ⟨g1, g2, g3, g4, g5⟩ := hkReg_fields now reg i l
+    refine ⟨?_, h2.trans g1, h3.trans g2, h4.trans g3, h5.trans g4, h6.trans g5⟩
+    dsimp only
+    rw [List.mapIdx_cons, h1, g1]
+    congr 1
+    apply List.ext_getElem?
+    intro k
+    simp only [List.getElem?_mapIdx]
+    cases rest[k]? with
+    | none => rfl
+    | some x => simp only [Option.map_some]; congr 2; omega
 
 end Srtla.Hk
